@@ -387,6 +387,85 @@ def check_grammar(acc, rules, words, scratch, origin, variants=True):
         acc.sample({"grammar": text[text.index("start"):][:400], "words": len(words), "accepted": acc.counters.get("result_ok", 0)})
 
 
+# --- near-duplicate groups: what the generator's helper-rule cache could confuse --------------------------------------------------------------
+# The generator emits one helper rule per parenthesised group and re-uses a helper for a group it has "seen before". Random grammars never
+# repeat a group (every action carries a fresh tag), so this family makes them: a group of the grammar is copied, with the same names and
+# the same action, into a new alternative of the same rule - once unchanged and once with exactly one node altered (* <-> +, ? dropped,
+# & <-> !, a literal or token class exchanged, soft <-> hard, gather separator exchanged, && dropped, ~ dropped).
+def _one_point_variants(it, palette):
+    """all copies of the item with exactly one node altered"""
+    t = type(it)
+    out = []
+    if t is Star:
+        out.append(Plus(it.item))
+    elif t is Plus:
+        out.append(Star(it.item))
+    elif t is Opt:
+        out.append(it.item)
+    elif t is PosLA:
+        out.append(NegLA(it.item))
+    elif t is NegLA:
+        out.append(PosLA(it.item))
+    elif t is Forced:
+        out.append(it.item)
+    elif t is Lit:
+        out.extend(Lit(s, it.soft) for s in palette if s != it.s and (not it.soft or s.isalpha()))
+        if it.s.isalpha():
+            out.append(Lit(it.s, not it.soft))
+    elif t is Cls and it.name in ("NAME", "NUMBER"):
+        out.append(Cls("NUMBER" if it.name == "NAME" else "NAME"))
+    elif t is Gather:
+        out.extend(Gather(v, it.item) for v in _one_point_variants(it.sep, palette))
+    if t in (Star, Plus, Opt, PosLA, NegLA, Forced):
+        out.extend(t(v) for v in _one_point_variants(it.item, palette))
+    elif t is Gather:
+        out.extend(Gather(it.sep, v) for v in _one_point_variants(it.item, palette))
+    elif t is Group:
+        for ai, a in enumerate(it.alts):
+            for ni, n in enumerate(a.items):
+                for v in _one_point_variants(n.item, palette):
+                    na = Alt(a.items[:ni] + (Named(n.name, v),) + a.items[ni + 1:], a.action)
+                    out.append(Group(it.alts[:ai] + (na,) + it.alts[ai + 1:]))
+                if type(n.item) is Cut:
+                    na = Alt(a.items[:ni] + a.items[ni + 1:], a.action)
+                    if na.items:
+                        out.append(Group(it.alts[:ai] + (na,) + it.alts[ai + 1:]))
+    return out
+
+
+def _groups_of(it):
+    t = type(it)
+    if t is Group:
+        yield it
+        for a in it.alts:
+            for n in a.items:
+                yield from _groups_of(n.item)
+    elif t in (Opt, Star, Plus, PosLA, NegLA, Forced):
+        yield from _groups_of(it.item)
+    elif t is Gather:
+        yield from _groups_of(it.item)
+
+
+def with_near_duplicate(rnd, rules, palette):
+    """the grammar with one of its groups used again (same rule, behind a fresh literal): unchanged and with one node altered; or None"""
+    sites = [(ri, g) for ri, r in enumerate(rules) if r.name != "start" for a in r.alts for n in a.items for g in _groups_of(n.item)]
+    rnd.shuffle(sites)
+    for ri, g in sites:
+        vs = _one_point_variants(g, palette)
+        if not vs:
+            continue
+        v = rnd.choice(vs)
+        r = rules[ri]
+        extra = (Alt((Named(None, Lit("x")), Named("a", v)), "('D1', a)"), Alt((Named(None, Lit("i")), Named("a", g)), "('D2', a)"))
+        if rnd.random() < 0.5:
+            extra = extra[::-1]
+        new = list(rules)
+        new[ri] = Rule(r.name, tuple(r.alts) + extra, r.memo)
+        if well_formed(new):
+            return new
+    return None
+
+
 def _empty_as_none(v):
     if isinstance(v, list):
         return None if not v else [_empty_as_none(x) for x in v]
@@ -534,6 +613,12 @@ def run_shard(shard):
         for _ in range(shard["grammars"]):
             g = G(rnd, rnd.randint(2, 6))
             rules = g.build()
+            origin = "random"
+            if rnd.random() < shard.get("p_neardup", 0.35):
+                nd = with_near_duplicate(rnd, rules, g.hard)
+                if nd is not None:
+                    rules, origin = nd, "near-duplicate-group"
+                    acc.count("grammars_with_near_duplicate_groups")
             kw = keywords(rules)
             # derived strings: the reference is used only to balance the workload (about as many accepted as rejected ones)
             cands = {derive(rnd, rules, kw) for _ in range(shard["derived"] * 3)}
@@ -541,7 +626,7 @@ def run_shard(shard):
             rej_w = [w for w in sorted(cands) if w not in set(acc_w)]
             rnd.shuffle(rej_w)
             derived = set(acc_w[: shard["derived"]]) | set(rej_w[: max(20, len(acc_w))])
-            check_grammar(acc, rules, words + sorted(derived - set(words)), scratch, "random", variants=rnd.random() < shard.get("p_variants", 0.5))
+            check_grammar(acc, rules, words + sorted(derived - set(words)), scratch, origin, variants=rnd.random() < shard.get("p_variants", 0.5))
     finally:
         shutil.rmtree(scratch, ignore_errors=True)
     return acc.dump()
